@@ -186,4 +186,67 @@ theorem decPublishId_enc (node id : String) (payload : List Node) :
   have := attr_opt "id" id
   simp [encPublish, decPublishId, lastKids, kidsNamed, this]
 
+/-! ### enum-named elements -/
+
+theorem enum_names_ncname (t : EnumTable) (h : t.ok = true) (n : Nat) (h1 : t.lo ≤ n) (h2 : n < t.hi) :
+    ∃ nm, t.names[n]? = some nm ∧ isNCName nm = true := by
+  simp only [EnumTable.ok, Bool.and_eq_true, decide_eq_true_eq, List.all_eq_true] at h
+  obtain ⟨⟨hlo, hhi⟩, hall⟩ := h
+  have hn : n < t.names.length := by omega
+  refine ⟨t.names[n], by simp [hn], ?_⟩
+  apply hall
+  have : ((t.names.drop t.lo).take (t.hi - t.lo))[n - t.lo]? = some t.names[n] := by
+    rw [List.getElem?_take]
+    have : n - t.lo < t.hi - t.lo := by omega
+    simp only [this, if_true, List.getElem?_drop]
+    have e : t.lo + (n - t.lo) = n := by omega
+    simp [e, hn]
+  exact List.mem_of_getElem? this
+
+theorem encCond_names (sp : String) (t : EnumTable) (h : t.ok = true) (n : Nat) :
+    ∀ node ∈ encCond sp t n, ∃ nm, node = .elem ⟨sp, nm⟩ [] [] ∧ isNCName nm = true := by
+  intro node hnode
+  unfold encCond at hnode
+  split at hnode
+  · rename_i hr
+    obtain ⟨nm, hnm, hnc⟩ := enum_names_ncname t h n hr.1 hr.2
+    simp only [hnm, List.mem_singleton] at hnode
+    exact ⟨nm, hnode, hnc⟩
+  · simp at hnode
+
+theorem roundTrips_at (t : EnumTable) (h : t.roundTrips = true) (n : Nat) (h1 : t.lo ≤ n) (h2 : n < t.hi) :
+    ∃ nm, t.names[n]? = some nm ∧ decCond t nm = n ∧ nm ≠ "text" := by
+  simp only [EnumTable.roundTrips, List.all_eq_true, List.mem_range] at h
+  have := h n h2
+  have hlt : ¬ n < t.lo := by omega
+  simp only [hlt, decide_false, Bool.false_or] at this
+  cases hn : t.names[n]? with
+  | none => simp [hn] at this
+  | some nm =>
+    simp only [hn, Bool.and_eq_true, beq_iff_eq, bne_iff_ne] at this
+    exact ⟨nm, rfl, this.1, this.2⟩
+
+theorem decSaslErr_enc (t : EnumTable) (hrt : t.roundTrips = true) (e : SaslErr) :
+    decSaslErr t (encSaslErr t e) = some (canonSaslErr t e) := by
+  cases e with
+  | mk c lang text =>
+    by_cases hr : t.lo ≤ c ∧ c < t.hi
+    · obtain ⟨nm, hnm, hdec, hne⟩ := roundTrips_at t hrt c hr.1 hr.2
+      by_cases ht : text = "" <;> by_cases hl : lang = "" <;>
+        simp [encSaslErr, decSaslErr, canonSaslErr, encCond, hr, hnm, firstNonText, hne, hdec, ht, hl, kidsNamed,
+          attrOrEmpty, attrLast, Form.textOf_textKid]
+    · by_cases ht : text = "" <;> by_cases hl : lang = "" <;>
+        simp [encSaslErr, decSaslErr, canonSaslErr, encCond, hr, firstNonText, ht, hl, kidsNamed,
+          attrOrEmpty, attrLast, Form.textOf_textKid]
+
+/-! ### MUC join payload -/
+
+theorem decMucJoin_enc (j : MucJoin) : decMucJoin (encMucJoin j) = some j := by
+  cases j with
+  | mk ms mc sec since pw =>
+    have e1 : ("history" = "password") = False := by decide
+    have e2 : ("password" = "history") = False := by decide
+    cases ms <;> cases mc <;> cases sec <;> cases since <;> by_cases hp : pw = "" <;>
+      simp [encMucJoin, decMucJoin, optAttrO, kidsNamed, leaf, textKid, attrLast, at', hp, e1, e2]
+
 end XmppModel.Payloads
